@@ -40,6 +40,8 @@ var attrTemplates = []string{
 	"<http://a/%2" + hA + hA + ">",            // 23 percent escape in an autolink
 	"> a <b\n> " + hA + "=\"d\">x</b>",         // 24 multi-line inline tag inside a block quote
 	"- <!-- a\n  " + hA + " -->",              // 25 multi-line comment inside a list item
+	"<div>\n<SCR" + hH + hH + "PT>x",           // 26 two free non-ASCII bytes inside an upper-case raw tag name (name-set predicates see ASCII lowercasing only)
+	"a <!-- <B" + hH + "> -->",                 // 27 a non-ASCII byte ending a raw tag name inside a comment
 }
 
 func c10Input(kind, a int) []byte {
